@@ -59,5 +59,8 @@ LEVEL_NOTE = ("Trusted: as C01. The wire-level isolation statement holds only fo
               "(session = routecore's Session as far as tick()/negotiated()/the message channel go; gate = the statuses process() returns): C02_bgp_session_touches_only_own "
               "holds for all scripts, C02_bgp_session_end_withdraws_own for sessions that keep routecore's side of the contract (bs_wf); tied to the real loop by engine bgpend. "
               "In `pipe`/`e2e` the BGP session end is still the harness's emulation; routecore's FSM and TCP are not modelled; known finding bgp-window "
-              "(live_sessions bookkeeping, no route affected).")
+              "(live_sessions bookkeeping, no route affected). "
+              "The loss of ALL sessions of an ingress unit at once - a reload that takes the bmp-tcp-in unit out of the configuration - is exercised end to end with a second "
+              "ingress unit to spare (engine `e2e`, ops J / JL): exactly the ids registered under the removed unit's connected routers are withdrawn, in every RIB unit "
+              "(C02_removed_unit_withdraws_its_routes, C02_removal_spares_other_ingresses, C02_removal_is_one_bulk_withdrawal).")
 TECHNIQUE = "Coq frame lemmas over the RIB model + refutation witness + model/implementation correspondence"
